@@ -465,3 +465,53 @@ def coq_case(case, runner, outcome):
             f' {cbool(case["ifd"])} {cbool(case["ifg"])} '
             + copt(case.get('inl'), lambda nd: cpair(cz(nd[0]), cz(nd[1])))
             + f' {out})')
+
+
+# ---- minimised corpus: one case per mutation the generator had to be strengthened for -----------
+
+IDENT12 = (0.0, 0.0, 0.0, 1.0, 0.0, 0.0, 0.0, 1.0, 0.0, 0.0, 0.0, 1.0)
+SHIFT12 = (1.5, 0.0, -0.5, 1.0, 0.0, 0.0, 0.0, 1.0, 0.0, 0.0, 0.0, 1.0)
+TURN12 = (0.0, 2.0, 0.0, 0.0, 1.0, 0.0, -1.0, 0.0, 0.0, 0.0, 0.0, 1.0)
+
+
+def _cell(geom, u=0, fill=None, filltr=None, trcl=(), orig=(), mat=1):
+    return {'mat': mat, 'rho': '-1.0', 'geom': geom, 'imp': 1.0, 'u': u,
+            'fill': fill, 'filltr': filltr, 'lat': None,
+            'trcl': [tuple(t) for t in trcl], 'orig': [tuple(o) for o in orig]}
+
+
+def corpus_cases():
+    out = []
+    # (M3) a container that already carries two provenance pairs
+    cells = OrderedDict([
+        (1, _cell(('s', -1), fill=1, filltr=(), orig=[(61, 62), (63, 64)])),
+        (5, _cell(('s', 2), u=1, orig=[(71, 72), (73, 74)])),
+        (6, _cell(('s', -2), u=1))])
+    out.append(('provenance pairs', cells, [SHIFT12], None))
+    # (M17) one cell referenced twice from one geometry, inlining thresholds
+    for inl in [(1, 1), (2, 1), (5, 2), (4, 1)]:
+        cells = OrderedDict([
+            (3, _cell(('*', ('s', 1), ('s', -2), ('s', 3)))),
+            (4, _cell(('*', (':', ('s', 4), ('ref', 3)), ('ref', 3)))),
+            (7, _cell((':', ('ref', 3), ('ref', 4))))])
+        out.append((f'double reference, score {inl}', cells, [SHIFT12], inl))
+    # (seeded regression) TRCL + explicit identity fill transformation, at
+    # level 0 and nested; and the same with an empty filltr (TRCL decides)
+    for ft in (IDENT12, (), SHIFT12):
+        cells = OrderedDict([
+            (1, _cell(('s', -1), fill=1, filltr=ft, trcl=[TURN12])),
+            (2, _cell(('s', 1))),
+            (10, _cell(('s', -2), u=1, fill=2, filltr=ft, trcl=[SHIFT12])),
+            (11, _cell(('s', 2), u=1)),
+            (20, _cell(('s', -3), u=2)),
+            (21, _cell(('s', 3), u=2))])
+        out.append((f'TRCL + filltr {len(ft)} entries', cells,
+                    [IDENT12, SHIFT12, TURN12], None))
+    cases = []
+    for name, cells, pool, inl in out:
+        for ifd, ifg in ((False, False), (True, True)):
+            cases.append({'name': name, 'cells': cells, 'pool': list(pool),
+                          'surf_ids': [1, 2, 3, 4], 'nck': max(cells) + 1,
+                          'nsk': len(BASE_DECK_PLANES) + 1, 'do_trcl': False,
+                          'ifd': ifd, 'ifg': ifg, 'inl': inl, 'fault': None})
+    return cases
